@@ -12,17 +12,43 @@ def _b(s):
     return s.encode("latin-1", "replace") if isinstance(s, str) else bytes(s)
 
 
-def lex(stream, info, tty, verbose):
+MSG = re.compile(rb"ninja: (build stopped|no work to do|error|warning|Entering directory)[^\n]*\n")
+
+
+def fmt_regex(fmt):
+    """NINJA_STATUS format -> (regex bytes, list of counter names in group order)."""
+    rx, names = b"", []
+    i = 0
+    while i < len(fmt):
+        c = fmt[i]
+        if c == "%" and i + 1 < len(fmt):
+            d = fmt[i + 1]
+            i += 2
+            if d == "%":
+                rx += b"%"
+            elif d in "strufp":
+                rx += rb"( *\d+)%" if d == "p" else rb"(\d+)"
+                names.append(d)
+            else:
+                rx += rb"[^\n\r]*?"      # time / rate placeholders: any text
+            continue
+        rx += re.escape(c.encode("latin-1"))
+        i += 1
+    return rx, names
+
+
+def lex(stream, info, tty, verbose, msgs=False, fmt=""):
     """stream: bytes; info: {s: dict(cmd, desc, outs, code, out)}.  Returns list of (offset, token dict)."""
+    head_rx, head_names = fmt_regex(fmt or "[%f/%t] ")
     outs = []     # (bytes, s)
     failed = []   # (bytes, s)
     status = []   # (regex, s)
     for s, d in info.items():
         text = d["cmd"] if (verbose or not d["desc"]) else d["desc"]
         if tty:
-            status.append((re.compile(rb"\r\[(\d+)/(\d+)\] " + re.escape(_b(text)) + rb"\x1b\[K"), s))
+            status.append((re.compile(rb"\r" + head_rx + re.escape(_b(text)) + rb"\x1b\[K"), s))
         # the plain form is also what a terminal gets for a status line that was held back together with command output
-        status.append((re.compile(rb"\[(\d+)/(\d+)\] " + re.escape(_b(text)) + rb"\n"), s))
+        status.append((re.compile(head_rx + re.escape(_b(text)) + rb"\n"), s))
         if d.get("out"):
             o = _b(d["out"])
             if not tty:
@@ -43,28 +69,34 @@ def lex(stream, info, tty, verbose):
     def flush_junk(upto):
         nonlocal junk_start
         if junk_start is not None:
-            toks.append((junk_start, {"k": "junk", "s": 0, "f": 0, "t": 0}))
+            toks.append((junk_start, {"k": "junk", "s": 0, "f": 0, "t": 0, "cs": -1, "cr": -1, "cu": -1, "cp": -1}))
             junk_start = None
 
     while p < n:
         hit = None
         for o, s in outs:
             if stream.startswith(o, p):
-                hit = (len(o), {"k": "out", "s": s, "f": 0, "t": 0})
+                hit = (len(o), {"k": "out", "s": s, "f": 0, "t": 0, "cs": -1, "cr": -1, "cu": -1, "cp": -1})
                 break
         if not hit:
             for h, s in failed:
                 if stream.startswith(h, p):
-                    hit = (len(h), {"k": "failed", "s": s, "f": 0, "t": 0})
+                    hit = (len(h), {"k": "failed", "s": s, "f": 0, "t": 0, "cs": -1, "cr": -1, "cu": -1, "cp": -1})
                     break
         if not hit:
             for rx, s in status:
                 m = rx.match(stream, p)
                 if m:
-                    hit = (m.end() - p, {"k": "status", "s": s, "f": int(m.group(1)), "t": int(m.group(2))})
+                    cnt = {n: int(m.group(k + 1)) for k, n in enumerate(head_names)}
+                    hit = (m.end() - p, {"k": "status", "s": s, "f": cnt.get("f", -1), "t": cnt.get("t", -1),
+                                         "cs": cnt.get("s", -1), "cr": cnt.get("r", -1), "cu": cnt.get("u", -1), "cp": cnt.get("p", -1)})
                     break
         if not hit and stream[p:p + 1] == b"\n":
-            hit = (1, {"k": "nl", "s": 0, "f": 0, "t": 0})
+            hit = (1, {"k": "nl", "s": 0, "f": 0, "t": 0, "cs": -1, "cr": -1, "cu": -1, "cp": -1})
+        if not hit and msgs and (p == 0 or stream[p - 1:p] == b"\n"):
+            m = MSG.match(stream, p)
+            if m:
+                hit = (m.end() - p, {"k": "nl", "s": 0, "f": 0, "t": 0, "cs": -1, "cr": -1, "cu": -1, "cp": -1})   # ninja's own closing message: ignored like a newline
         if hit:
             flush_junk(p)
             toks.append((p, hit[1]))
@@ -95,14 +127,14 @@ def convert(trace_path, out_path):
             for ci, c in inv["chunks"]:
                 bounds.append((off, off + len(c), ci))
                 off += len(c)
-            toks = lex(stream, inv["info"], inv["mode"] == "tty", inv["verbose"])
+            toks = lex(stream, inv["info"], inv["mode"] == "tty", inv["verbose"], msgs=inv["mode"] == "h2", fmt=inv.get("fmt", ""))
             per_call = {}
             for o, t in toks:
                 for a, b, ci in bounds:
                     if a <= o < b:
                         per_call.setdefault(ci, []).append(t)
                         break
-            out.write(json.dumps({"e": "Reset", "sc": sc, "run": run, "tty": inv["mode"] == "tty", "src": inv["src"]}) + "\n")
+            out.write(json.dumps({"e": "Reset", "sc": sc, "run": run, "tty": inv["mode"] == "tty", "batch": inv["mode"] == "h2", "src": inv["src"]}) + "\n")
             for ci, (kind, fields, src_line) in enumerate(inv["calls"]):
                 obs = per_call.get(ci, [])
                 if kind == "Other" and not obs:
@@ -122,7 +154,7 @@ def convert(trace_path, out_path):
                 sc, run = j["sc"], j["run"]
             elif e == "Printer":
                 finish(False, ln)
-                inv = {"mode": j["mode"], "verbose": j.get("verbose", False), "calls": [], "chunks": [], "info": {}, "src": ln}
+                inv = {"mode": j["mode"], "verbose": j.get("verbose", False), "fmt": j.get("fmt", ""), "calls": [], "chunks": [], "info": {}, "src": ln}
             elif inv is not None and e == "St":
                 c = j["c"]
                 if c == "started":
@@ -135,11 +167,23 @@ def convert(trace_path, out_path):
                     inv["calls"].append(("BuildFinished", {}, ln))
                 else:
                     inv["calls"].append(("Other", {}, ln))
+            elif inv is not None and inv["mode"] == "h2" and e == "Start":
+                inv["info"].setdefault(j["s"], {}).update(cmd=j["cmd"], desc=j["desc"], outs=j["outs"], console=j["console"])
+                inv["calls"].append(("Started", {"s": j["s"], "console": j["console"]}, ln))
+            elif inv is not None and inv["mode"] == "h2" and e == "Done":
+                inv["info"].setdefault(j["s"], {}).update(code=j["code"], out=j.get("out", ""))
+            elif inv is not None and inv["mode"] == "h2" and e == "H" and j["h"] == "Fin:Status" and j["s"] in inv["info"] and "code" in inv["info"][j["s"]]:
+                d = inv["info"][j["s"]]
+                inv["calls"].append(("Finished", {"s": j["s"], "console": d.get("console", False), "code": d["code"], "out": bool(d["out"])}, ln))
             elif inv is not None and e == "Out":
                 if not inv["calls"]:
                     inv["calls"].append(("Other", {}, ln))
                 inv["chunks"].append((len(inv["calls"]) - 1, bytes(j["b"])))
             elif inv is not None and e in ("Exit", "Died", "Abnormal"):
+                if inv["mode"] == "h2":
+                    # the real binary: the whole stdout is known only at the end; it is checked in one piece (batch)
+                    inv["calls"].append(("BuildFinished", {}, ln))
+                    inv["chunks"].append((len(inv["calls"]) - 1, j.get("stdout", "").encode("latin-1", "replace")))
                 finish(e == "Exit" and j.get("code") == 0, ln)
         finish(False, 0)
     return n_inv
